@@ -3,19 +3,29 @@ import ast
 
 from ..common import (get_repo, get_ops, get_tables, short, norm, CFG, normal_only, attr_stores,
                       method_loc, calls_in, attr_tail, is_self_attr, dispatch_rule, names_in)
-from .c03 import fnode_alloc_rule, FM, FNODE
+from .c03 import fnode_alloc_rule, construction_region, FM, FNODE
 
 EXPLANATION = (
-    "Static analysis of formula.py/fnode.py: one allocation site for FNode and one writer of the "
-    "hash-consing table and id counter (R1, who-may-write over the whole package); lookup-before-"
-    "insert on the full (operator, children, payload) key with exactly one id advance per allocation "
-    "(R2, CFG); identity equality and id hash (R3); payload layout agreement between constructors "
-    "and accessors (R4); canonical constant-array ordering (R5); cross-environment copy rebuilds "
-    "everything through the target manager (R6); value-keyed constant caches validate before "
-    "lookup (R7).")
-NOT_DECIDED = [
-    "absence of collisions between distinct Python payloads that compare equal (needs values)",
-]
+    "The real formula manager is interpreted from source - FormulaManager.__init__, create_node with whatever helpers "
+    "it is split into, the hash-consing table and id counter, FNode, FNodeContent and the construction-time type "
+    "check; nothing of it is modelled.  On it, ~60 pairwise structurally different applications (every operator "
+    "family, payload-only differences such as extraction bounds, extension steps, bit-widths, constant values, bound "
+    "variable lists, argument order) are requested twice, the second time in reverse order and between unrelated "
+    "constructions: the two requests give the very same object, different structures give different objects with "
+    "different ids that do not compare equal, hashes are stable, and the table holds one entry per object (R2).  "
+    "FNode defines no __eq__ / __ne__ anywhere in its hierarchy (R3).  FNode is allocated, and the table and the "
+    "id counter are written, only inside the construction region of create_node: create_node plus the private "
+    "helpers that the package-wide call graph shows to be reachable only through it (R1, who-may-write).  "
+    "Constructor / accessor agreement: a node built by the real constructor from symbolic parameters gives the "
+    "parameter back through the real accessor; predicates with optional arguments mean what they document (R4).  "
+    "A value that compares equal to a cached constant key but has another Python type (True / 1, Fraction(1) / 1, "
+    "1+0j / 1) is treated as on a fresh manager (R7).  No class-level mutable container of a per-environment "
+    "class is mutated through self (R8).  Rebuilding a formula from its structure - through the constructors, "
+    "through IdentityDagWalker, through normalize into the same and into another manager, through the documented "
+    "spellings of constants - returns the very same object, resp. a structurally identical copy that shares no "
+    "object with the source (R9).")
+NOT_DECIDED = ["structures outside the menus (the rule decides the menu: one representative per way two structures can differ)",
+               "absence of collisions between distinct Python payloads that compare equal beyond the impostor values of R7"]
 
 
 def run(ctx):
@@ -23,15 +33,16 @@ def run(ctx):
     ctx.analysed["modules"] = ["pysmt/formula.py", "pysmt/fnode.py", "pysmt/walkers/identitydag.py",
                                "whole package for who-may-write"]
     if ctx.want("R1"):
-        rs = ctx.rule("R1", "one allocation site, one table writer")
+        rs = ctx.rule("R1", "one allocation region, one table writer")
         fnode_alloc_rule(ctx, rs)
-        allowed = {
-            "formulae": {(FM, "__init__"), (FM, "create_node")},
-            "_next_free_id": {(FM, "__init__"), (FM, "create_node")},
+        region = construction_region(repo)
+        owners = {
+            "formulae": region | {(FM, "__init__")},
+            "_next_free_id": region | {(FM, "__init__")},
             "_content": {(FNODE, "__init__")},
             "_node_id": {(FNODE, "__init__")},
         }
-        for attr, ok in sorted(allowed.items()):
+        for attr, ok in sorted(owners.items()):
             sites = attr_stores(repo, attr)
             if not sites:
                 ctx.error("R1", "anchor vanished: no store to .%s anywhere" % attr)
@@ -46,118 +57,12 @@ def run(ctx):
         ctx.floor(rs, 6)
 
     if ctx.want("R2"):
-        rs = ctx.rule("R2", "lookup-before-insert on the full key; one id per allocation")
-        cls, fn = repo.method(FM, "create_node")
-        params = [a.arg for a in fn.args.args[1:]]
-        key_var = None
-        key_call = None
-        for n in ast.walk(fn):
-            if isinstance(n, ast.Assign) and isinstance(n.value, ast.Call) and attr_tail(n.value) == "FNodeContent":
-                key_var = n.targets[0].id if isinstance(n.targets[0], ast.Name) else None
-                key_call = n.value
-        if key_var is None:
-            rs.unrec("create_node builds its key in an unrecognised way")
-        else:
-            used = [a.id for a in key_call.args if isinstance(a, ast.Name)] + \
-                   [k.value.id for k in key_call.keywords if isinstance(k.value, ast.Name)]
-            if used[:3] == params[:3] and len(used) == 3:
-                rs.ok({"key": norm(key_call), "components": used})
-            else:
-                ctx.finding(rs, "%s.create_node|key-components" % FM,
-                            "hash-consing key %s is not the triple (%s): structurally different "
-                            "nodes may be merged or equal ones duplicated" % (norm(key_call), ", ".join(params[:3])),
-                            method_loc(repo, cls, key_call))
-            # membership test, hit returns stored object, miss stores under the same key
-            cfg = CFG(fn)
-            tests = [n for n in cfg.nodes if n.kind == "test" and isinstance(n.ast, ast.Compare)
-                     and len(n.ast.ops) == 1 and isinstance(n.ast.ops[0], (ast.In, ast.NotIn))
-                     and isinstance(n.ast.left, ast.Name) and n.ast.left.id == key_var
-                     and is_self_attr(n.ast.comparators[0], "formulae")]
-            if len(tests) != 1:
-                rs.unrec("membership test on self.formulae not found in recognised form")
-            else:
-                t = tests[0]
-                hit_lab = "T" if isinstance(t.ast.ops[0], ast.In) else "F"
-                miss_lab = "F" if hit_lab == "T" else "T"
-                hit = [y for (y, l) in cfg.succ[t.id] if l == hit_lab]
-                miss = [y for (y, l) in cfg.succ[t.id] if l == miss_lab]
-                is_alloc = lambda n: n.ast is not None and any(attr_tail(c) == "FNode" for c in calls_in(n.ast))
-                is_store = lambda n: (n.kind == "stmt" and isinstance(n.ast, ast.Assign) and
-                                      isinstance(n.ast.targets[0], ast.Subscript) and
-                                      is_self_attr(n.ast.targets[0].value, "formulae"))
-                is_inc = lambda n: (n.kind == "stmt" and isinstance(n.ast, (ast.AugAssign, ast.Assign)) and
-                                    "_next_free_id" in norm(n.ast.target if isinstance(n.ast, ast.AugAssign) else n.ast.targets[0]))
-                # hit path: no allocation, returns the stored object
-                hit_reach = set()
-                for y in hit:
-                    hit_reach |= cfg.reachable(y, follow=normal_only)
-                if any(is_alloc(cfg.nodes[i]) or is_store(cfg.nodes[i]) for i in hit_reach):
-                    ctx.finding(rs, "%s.create_node|hit-allocates" % FM,
-                                "the hit path of create_node allocates or stores a node: two objects "
-                                "for one structure", method_loc(repo, cls, t.ast))
-                else:
-                    rets = [cfg.nodes[i] for i in hit_reach if isinstance(cfg.nodes[i].ast, ast.Return)]
-                    good = False
-                    for r in rets:
-                        v = r.ast.value
-                        src = None
-                        if isinstance(v, ast.Name):
-                            for i in hit_reach:
-                                a = cfg.nodes[i].ast
-                                if isinstance(a, ast.Assign) and isinstance(a.targets[0], ast.Name) and a.targets[0].id == v.id:
-                                    src = a.value
-                        else:
-                            src = v
-                        if src is not None and norm(src) == "self.formulae[%s]" % key_var:
-                            good = True
-                    if good:
-                        rs.ok({"hit": "returns self.formulae[%s]" % key_var})
-                    else:
-                        ctx.finding(rs, "%s.create_node|hit-returns-other" % FM,
-                                    "the hit path does not return the stored object self.formulae[%s]" % key_var,
-                                    method_loc(repo, cls, t.ast))
-                # miss path: every return passes alloc, store under same key, exactly one increment
-                for y in miss:
-                    for must, what in ((is_alloc, "allocation"), (is_store, "store"), (is_inc, "id advance")):
-                        if not cfg.must_pass(y, cfg.ret.id, must, follow=normal_only) and not must(cfg.nodes[y]):
-                            ctx.finding(rs, "%s.create_node|miss-skips-%s" % (FM, what.replace(" ", "-")),
-                                        "a miss path of create_node returns without %s" % what,
-                                        method_loc(repo, cls, t.ast))
-                        else:
-                            rs.ok({"miss": "passes " + what})
-                    mreach = cfg.reachable(y, follow=normal_only)
-                    stores = [cfg.nodes[i] for i in mreach if is_store(cfg.nodes[i])]
-                    for s in stores:
-                        k = s.ast.targets[0].slice
-                        if isinstance(k, ast.Name) and k.id == key_var:
-                            rs.ok({"store_key": key_var})
-                        else:
-                            ctx.finding(rs, "%s.create_node|store-key" % FM,
-                                        "node stored under %s but looked up under %s" % (norm(k), key_var),
-                                        method_loc(repo, cls, s.ast))
-                    incs = [cfg.nodes[i] for i in mreach if is_inc(cfg.nodes[i])]
-                    if len(incs) == 1 and isinstance(incs[0].ast, ast.AugAssign) and \
-                            isinstance(incs[0].ast.op, ast.Add) and norm(incs[0].ast.value) == "1":
-                        rs.ok({"id_advance": norm(incs[0].ast)})
-                    elif incs:
-                        rs.unrec("id advance in unrecognised form: %s" % [norm(i.ast) for i in incs])
-                    # the id given to the node is the counter
-                    for i in mreach:
-                        a = cfg.nodes[i].ast
-                        if a is not None and is_alloc(cfg.nodes[i]):
-                            for c in calls_in(a):
-                                if attr_tail(c) == "FNode":
-                                    ids = [norm(x) for x in c.args[1:]] + [norm(k.value) for k in c.keywords if k.arg == "node_id"]
-                                    if ids == ["self._next_free_id"]:
-                                        rs.ok({"node_id": ids[0]})
-                                    else:
-                                        ctx.finding(rs, "%s.create_node|node-id" % FM,
-                                                    "node id is %s, not the free-id counter: ids (the hash) may collide"
-                                                    % ids, method_loc(repo, cls, c))
-        ctx.floor(rs, 6)
+        rs = ctx.rule("R2", "real manager: one object per structure, whatever the order of construction; distinct structures, distinct objects and ids")
+        from . import mgr_deep
+        mgr_deep.report(ctx, rs, mgr_deep.identity_results(), "pysmt/formula.py", 55)
 
     if ctx.want("R3"):
-        rs = ctx.rule("R3", "identity equality, id hash, three-component content")
+        rs = ctx.rule("R3", "formula objects compare by identity")
         ci = repo.cls(FNODE)
         for bad in ("__eq__", "__ne__"):
             q, f = repo.find_method(FNODE, bad)
@@ -166,93 +71,13 @@ def run(ctx):
                             "FNode defines %s: equality no longer coincides with identity" % bad,
                             repo.loc(ci.module, f or ci.node))
             else:
-                rs.ok({"FNode": "no %s" % bad})
-        q, h = repo.find_method(FNODE, "__hash__")
-        if h is None:
-            ctx.finding(rs, "%s|no-hash" % FNODE, "FNode has no __hash__", repo.loc(ci.module, ci.node))
-        else:
-            rets = [n for n in ast.walk(h) if isinstance(n, ast.Return)]
-            if len(rets) == 1 and norm(rets[0].value) == "self._node_id":
-                rs.ok({"__hash__": "self._node_id"})
-            else:
-                ctx.finding(rs, "%s.__hash__|not-id" % FNODE,
-                            "__hash__ returns %s instead of the node id" % [norm(r.value) for r in rets],
-                            repo.loc(ci.module, h))
-        b = ci.module.ns.get("FNodeContent")
-        good = False
-        if b and b[0] == "assign":
-            v = b[1].value
-            if isinstance(v, ast.Call) and attr_tail(v) == "namedtuple" and len(v.args) == 2:
-                try:
-                    fields = ast.literal_eval(v.args[1])
-                    if isinstance(fields, str):
-                        fields = fields.replace(",", " ").split()
-                    good = list(fields) == ["node_type", "args", "payload"]
-                except Exception:
-                    good = False
-        if good:
-            rs.ok({"FNodeContent": ["node_type", "args", "payload"]})
-        else:
-            ctx.finding(rs, "%s|content-fields" % FNODE,
-                        "FNodeContent is not namedtuple(node_type, args, payload)", repo.loc(ci.module, ci.node))
-        ctx.floor(rs, 4)
+                rs.ok({"FNode": "no %s in its class hierarchy" % bad})
+        ctx.floor(rs, 2)
 
     if ctx.want("R7"):
-        cache_rule(ctx, ctx.rule("R7", "value-keyed constant caches validate the value before lookup"), "C04")
+        rs = ctx.rule("R7", "real manager: a value that equals a cached constant key but has another Python type is treated as on a fresh manager")
+        from . import mgr_deep
+        mgr_deep.report(ctx, rs, mgr_deep.cache_results(), "pysmt/formula.py", 12)
 
     from . import c04_deep
     c04_deep.run(ctx)
-
-
-VALIDATORS = {"is_pysmt_integer", "is_python_integer", "is_pysmt_fraction", "is_python_rational",
-              "is_python_string", "isinstance", "type"}
-
-
-def cache_rule(ctx, rs, prop):
-    """In Int/Real/String (any FormulaManager method that reads a *_constants dict with a parameter
-    as key): the return of a cached node must be dominated by a validation of that parameter."""
-    repo = get_repo()
-    ci = repo.cls(FM)
-    n_sites = 0
-    for name in ci.order:
-        f = ci.own_func(name)
-        if f is None:
-            continue
-        params = [a.arg for a in f.args.args[1:]]
-        cfg = None
-        for n in ast.walk(f):
-            if isinstance(n, ast.Return) and isinstance(n.value, ast.Subscript) and \
-                    isinstance(n.value.value, ast.Attribute) and n.value.value.attr.endswith("_constants") and \
-                    isinstance(n.value.slice, ast.Name) and n.value.slice.id in params:
-                n_sites += 1
-                p = n.value.slice.id
-                cfg = cfg or CFG(f)
-                node = [x for x in cfg.nodes if x.ast is n][0]
-
-                def validates(x, p=p):
-                    if x.kind != "test":
-                        return False
-                    for c in calls_in(x.ast):
-                        if attr_tail(c) in VALIDATORS and any(isinstance(a, ast.Name) and a.id == p for a in c.args):
-                            return True
-                    return False
-                # validators used anywhere in the constructor: a cache keyed by `str` only is
-                # type-exact (no builtin of another type compares equal to a str), so the order of
-                # lookup and validation cannot change the answer there.
-                used = set(attr_tail(c) for x in cfg.nodes if x.kind == "test" for c in calls_in(x.ast)
-                           if attr_tail(c) in VALIDATORS and
-                           any(isinstance(a, ast.Name) and a.id == p for a in c.args))
-                if cfg.dominated_by(node.id, validates, follow=normal_only):
-                    rs.ok({"constructor": name, "cache": norm(n.value.value), "validated_before_lookup": True})
-                elif used == {"is_python_string"}:
-                    rs.ok({"constructor": name, "cache": norm(n.value.value),
-                           "note": "str-keyed cache: equality is type-exact, lookup order is harmless"})
-                else:
-                    ctx.finding(rs, "%s.%s|cache-before-validation" % (FM, name),
-                                "%s(%s) returns a cached node before validating the Python type of '%s': "
-                                "a value that merely compares equal to a cached key (1.0 == 1, True == 1) is "
-                                "accepted or rejected depending on what was built earlier"
-                                % (name, p, p), method_loc(repo, FM, n))
-    if n_sites == 0:
-        ctx.error(rs.rule, "anchor vanished: no value-keyed constant cache found in FormulaManager")
-    ctx.floor(rs, 3)
